@@ -1,6 +1,9 @@
 package props
 
 import (
+	"fmt"
+	"strings"
+
 	"golang.org/x/tools/go/ssa"
 
 	"nxcheck/internal/ir"
@@ -99,4 +102,51 @@ func ruleNoDuplicateCallee(c *Ctx, rule string) {
 	addCallee := `^store:` + regPhi + `\.&callees=call:builtin:append\(` + regPhi + `\.callees, `
 	c.Guard(rule, sr, "append callee to existing registration", addCallee, 1,
 		clause("callee not already a member", F(`^call:slices\.Contains\(`+regPhi+`\.callees, %callee\)$`)))
+}
+
+// ruleOnlyInProcessIsLocal: a session is "local" (exempt from authentication and, by default, from authorization)
+// only when its peer is the in-process linked peer; every network peer answers IsLocal with the constant false.
+func ruleOnlyInProcessIsLocal(c *Ctx, rule string) {
+	n := 0
+	for _, fn := range c.P.NexusFuncs {
+		name := ir.ShortName(fn)
+		if !strings.HasSuffix(name, ".IsLocal") || !libFunc(name) {
+			continue
+		}
+		n++
+		for _, ex := range ir.Exits(fn, false) {
+			r := ex.(*ssa.Return)
+			if len(r.Results) != 1 {
+				continue
+			}
+			d := ir.Desc(r.Results[0])
+			if name == "transport.(*localPeer).IsLocal" {
+				c.R.Check(d == "true", rule, name, "the in-process peer is local", c.pos(ex), "returns "+d)
+			} else {
+				c.R.Check(d == "false", rule, name, "a network peer is never local", c.pos(ex),
+					"IsLocal of a peer that carries a network connection returns "+d+": sessions over that transport would skip authentication (trusted role, self-chosen authid) and authorization")
+			}
+		}
+	}
+	c.R.Check(n >= 3, rule, "transport", "IsLocal implementations enumerated", "-", fmt.Sprintf("found %d", n))
+}
+
+// ruleClientNumericTolerance: the client reads numbers the router sends (details, options) through the tolerant
+// accessors, never through an assertion to one concrete numeric type (which matches for one serializer only).
+func ruleClientNumericTolerance(c *Ctx, rule string) {
+	n := 0
+	for _, fn := range c.P.FuncsIn("client") {
+		name := ir.ShortName(fn)
+		for _, in := range ir.Instrs(fn) {
+			ta, ok := in.(*ssa.TypeAssert)
+			if !ok || !numericType(ta.AssertedType) {
+				continue
+			}
+			n++
+			c.R.Check(!fromAny(ta.X, 0), rule, name, "numeric assertion "+ir.Desc(ta), c.pos(in),
+				"data received from the router is asserted to the concrete type "+ir.TypeStr(ta.AssertedType)+": JSON and CBOR decode numbers as uint64/float64, msgpack as int64/uint64, so this matches only for some transports")
+		}
+	}
+	c.R.OK(rule, "client", fmt.Sprintf("%d numeric type assertions enumerated", n), "-", "")
+	c.Has(rule, cl+"runHandleInvocation", "forwarded timeout read type-tolerantly", `^call:wamp\.AsInt64\(%msg\.Details\["timeout"\]\)$`, 1)
 }
